@@ -111,14 +111,18 @@ def mk_owner(kind, mode, raising):
     return o, logs
 
 
-def mk_val(ex, i, kind, prev, sym):
+def mk_val(ex, i, kind, prev, sym, tkind="any"):
     if kind == "same":
         return prev
     if kind == "int":
-        v = ex.int("v%d" % i)
+        if tkind == "int":
+            v = ex.int("v%d" % i)          # Int trait: no floats around, plain mathematical integer
+            ex.assume(v > 1000)
+            return v
+        v = ex.int64("v%d" % i)        # 64-bit backed: comparisons with floats stay in the FP/BV fragment
         # CPython shares one object for small ints: keep payloads outside the small-int cache so that distinct proxies
         # correspond to distinct objects in the concrete replay (identity comparison mode is about object identity)
-        ex.assume((v > 1000) if ex.sym else (v > 1000))
+        ex.assume((v.bv64 > 1000) if ex.sym else (v > 1000))
         return v
     if kind == "float":
         return ex.fp("f%d" % i)
@@ -169,10 +173,13 @@ def make_harness(tkind, mode, kinds, raising, first_read):
     k = len(kinds)
 
     def harness(ex):
+        from traits.observation import exception_handling as _eh
         push_exception_handler(lambda *a: None, reraise_exceptions=False)
+        _eh.push_exception_handler(handler=lambda e: None, reraise_exceptions=False)
         try:
             return body(ex)
         finally:
+            _eh.pop_exception_handler()
             pop_exception_handler()
 
     def body(ex):
@@ -184,7 +191,7 @@ def make_harness(tkind, mode, kinds, raising, first_read):
         prev = o.__dict__.get("x", Undefined)
         obs_out = []
         for i, kind in enumerate(kinds):
-            value = mk_val(ex, i, kind, prev if "x" in o.__dict__ else None, ex.sym)
+            value = mk_val(ex, i, kind, prev if "x" in o.__dict__ else None, ex.sym, tkind)
             had = "x" in o.__dict__
             old_readable = o.__dict__["x"] if had else (Undefined if tkind == "event" else o.trait("x").default_value()[1])
             n0 = {m: len(v) for m, v in logs.items()}
@@ -258,8 +265,8 @@ def obligations(tier, build):
                     name = "any/%s/%s/%s%s" % (mode.name, "-".join(seq), "raise=%s" % raising, "/read-first" if first_read else "")
                     obs.append(Obligation(name, make_harness("any", mode, seq, raising, first_read), stubs=STUBS,
                                           bounds={"history": list(seq), "comparison mode": mode.name, "raising handler": raising,
-                                                  "payloads": "unbounded Int / any Float64"},
-                                          leverage="equality of payloads (equal-but-not-identical, NaN)", fast_fp=False,
+                                                  "payloads": "64-bit Int / any Float64"},
+                                          leverage="equality of payloads (equal-but-not-identical, NaN)", fast_fp=True,
                                           witness_every=1, max_paths=2000))
         for seq in [("int", "bad"), ("bad", "int"), ("int", "int"), ("int", "same"), ("bad", "bad")][: 5]:
             seq = seq + (("int",) if K == 3 else ())
